@@ -160,6 +160,9 @@ def gen_cfg(rnd, explainer, exact, allow_discontinuous=False):
         cfg["n_inner"] = min(cfg["n_inner"], 2)
         cfg["model"] = rnd.choice(["phase", "phase", cfg["model"]])      # a model that only becomes informative after ~40 observations
         cfg["extras"] = 0
+    if not exact and rnd.random() < 0.15:
+        # the explainer is built WITHOUT a smoothing rate: the documented default 0.001 applies (references use 0.001)
+        cfg["pass_alpha"], cfg["alpha"] = False, 0.001
     if not exact and rnd.random() < 0.05:       # the tree combination: TreeStorage + TreeImputer under an incremental explainer
         cfg.update(storage=("tree", rnd.choice([5, 10, 30]), rnd.choice([1, 3, 10])), imputer=rnd.choice(["tree-storage", "tree-model"]),
                    warm_start=0, manual_updates=False, frozen_first=0, steps=max(cfg["steps"], 25), x_type="dict", shuffle_keys=False)
